@@ -4,7 +4,7 @@ use crate::cx::Cx;
 use crate::drv::{boundary_lens, sl, whole, Drv};
 use serde_json::json;
 
-pub const CONSUMERS: [&str; 13] = ["next", "fold", "for_each", "collect", "count", "last", "skip1", "step2", "peekable", "enumerate", "nth1", "take3", "zip"];
+pub const CONSUMERS: [&str; 15] = ["next", "fold", "for_each", "collect", "count", "last", "skip1", "step2", "peekable", "enumerate", "nth1", "take3", "zip", "overshoot_count", "overshoot_next"];
 
 fn gcd(a: usize, b: usize) -> usize {
     if b == 0 { a } else { gcd(b, a % b) }
